@@ -17,7 +17,8 @@ RULE = ("per code point (quick: U+0000-U+07FF, surrogate-neighbourhood and plane
         "(length <= 12); and invalid literals of each class (every raw C0 control, every unknown escape letter, \\u truncated to 0-3 digits "
         "in the middle and at the end of the literal, the other quote escaped, lone high / lone low surrogate escapes, high followed by a "
         "non-low escape, all 10x10 pairs over the surrogate boundary set) must be rejected with a JSONPathError. Oracle: the RFC's "
-        "string-literal derivation (vf/oracle/strings.py). Non-trivial: an escaped spelling or a rejected literal; distinct by literal text.")
+        "string-literal derivation (vf/oracle/strings.py). Non-trivial: an escaped spelling or a rejected literal; distinct by literal text."
+        " After every rejected literal a sentinel literal is decoded on the same environment, and every sequence batch is evaluated twice (re-compiling the same text must decode the same).")
 ASSUMPTIONS = ["literal spellings enumerated from the RFC 9535 'string-literal' ABNF", "lone surrogates as raw characters are out of domain"]
 DECIDING_MONITORS = ["M-find", "M-compile-invalid"]
 
